@@ -725,7 +725,7 @@ structure PhaseD (s : CState) : Prop where
     Sorted ds ∧
     ((e = 0 ∧ Draining c ac 1 s.m cy.pushes.length ∧ (ds ++ remaining s.m).Perm cy.pushes
         ∧ (∀ d ∈ ds, ∀ r ∈ remaining s.m, d.key ≤ r.key) ∧ s.m.pos = ds.length)
-     ∨ (0 < e ∧ AtEof c ac 1 s.m cy.pushes.length ∧ ds.Perm cy.pushes))
+     ∨ (0 < e ∧ AtEof c ac 1 s.m cy.pushes.length ∧ ds.Perm cy.pushes ∧ (ac = true → Fresh c ac 1 s.m)))
 
 /-- the outputs of the whole cycle are those the property demands -/
 def Final (s : CState) : Prop := ∃ ys, SortedPermOf ys cy.pushes ∧ s.outs.reverse = specCycle ac ys cy
@@ -737,12 +737,13 @@ structure PhaseEnd (s : CState) : Prop where
   quiet : ∀ w ∈ s.writers, w.pc = .done
   files : s.m.files = []
   final : Final ac cy s
+  fresh : Fresh c ac 1 s.m
 
 /-- the invariant of one use cycle -/
 def CInv (s : CState) : Prop :=
   Reported s ∨ Pending s ∨
   (s.m.err = none ∧ ((∃ xs todo ch cp, PhaseF c ac cy s xs todo ch cp) ∨ (∃ A cp, PhaseZ c ac cy s A cp)
-      ∨ PhaseD c ac cy s ∨ PhaseEnd ac cy s))
+      ∨ PhaseD c ac cy s ∨ PhaseEnd c ac cy s))
 
 /-! ### the blocks of the caller, one constructor per branch of `cstep` -/
 
@@ -776,6 +777,8 @@ inductive CStep (s : CState) : CState → Prop where
       CStep s (finishOp (pullF s).1 (pullF s).2.1 (pullF s).2.2)
   | clear (rest : List Op) : s.pc = .idle → s.prog = Op.clear :: rest →
       CStep s (finishOp (clearF s).1 (clearF s).2 none)
+  | reject (rest : List Op) : s.pc = .idle → s.prog = Op.reject :: rest →
+      CStep s (finishOp s .rejected none)
   | send (ch : List Elem) (wr : Chan (List Elem)) : s.pc = .pushSend → s.m.chunk = some ch →
       s.writable.send ch = some wr →
       CStep s { s with writable := wr, wg := s.wg + 1, writers := s.writers ++ [{}], pc := .pushRecv }
@@ -850,6 +853,9 @@ theorem cstep_cases {s t : CState} (h : cstep s = some t) : CStep s t := by
       | clear =>
         have e1 : cstep s = some (finishOp (clearF s).1 (clearF s).2 none) := by simp [cstep, hpc, hprog]
         rw [e1] at h; cases h; exact .clear rest hpc hprog
+      | reject =>
+        have e1 : cstep s = some (finishOp s .rejected none) := by simp [cstep, hpc, hprog]
+        rw [e1] at h; cases h; exact .reject rest hpc hprog
   · cases hch : s.m.chunk with
     | none => simp [cstep, hpc, hch] at h
     | some ch =>
@@ -878,6 +884,7 @@ theorem cstep_cases {s t : CState} (h : cstep s = some t) : CStep s t := by
         | finalise => simp [cstep, hpc, hpool, hprog] at h
         | pull => simp [cstep, hpc, hpool, hprog] at h
         | clear => simp [cstep, hpc, hpool, hprog] at h
+        | reject => simp [cstep, hpc, hpool, hprog] at h
   · cases hch : s.m.chunk with
     | none => simp [cstep, hpc, hch] at h
     | some ch =>
@@ -1020,6 +1027,7 @@ theorem Reported_cstep {s t : CState} (hs : Str s) (h : Reported s) (hst : CStep
   | finEmpty => apply Reported_finish_of h; rfl
   | pull => exact Reported_finish_of h (pullF_frame s).outs _ _
   | clear => exact Reported_finish_of h (clearF_frame s).outs _ _
+  | reject => apply Reported_finish_of h; rfl
   | send => exact h
   | recvErr => apply Reported_finish_of h; rfl
   | recvOk => apply Reported_finish_of h; rfl
@@ -1046,6 +1054,7 @@ theorem Pending_cstep {s t : CState} (hs : Str s) (h : Pending s) (hst : CStep s
   | finEmpty _ _ _ _ _ _ _ he => rw [herr] at he; cases he
   | pull rest _ hp => rcases hprog with ⟨e, r, h'⟩ | ⟨r, h'⟩ <;> rw [h'] at hp <;> cases hp
   | clear rest _ hp => rcases hprog with ⟨e, r, h'⟩ | ⟨r, h'⟩ <;> rw [h'] at hp <;> cases hp
+  | reject rest _ hp => rcases hprog with ⟨e, r, h'⟩ | ⟨r, h'⟩ <;> rw [h'] at hp <;> cases hp
   | send => exact Or.inr ⟨herr, hprog⟩
   | recvErr e rest r _ _ _ he => rw [herr] at he; cases he; exact Or.inl (Reported_finish _)
   | recvOk _ _ _ _ _ he => rw [herr] at he; cases he
@@ -1231,6 +1240,9 @@ theorem F_cstep {s t : CState} {xs todo ch cp : List Elem} (hc : 1 ≤ c) (hs : 
     rw [hF.prog] at hp
     rcases head_push_or_fin todo (tailOps cy) with ⟨e, r, h'⟩ | ⟨r, h'⟩ <;> rw [h'] at hp <;> cases hp
   | clear rest _ hp =>
+    rw [hF.prog] at hp
+    rcases head_push_or_fin todo (tailOps cy) with ⟨e, r, h'⟩ | ⟨r, h'⟩ <;> rw [h'] at hp <;> cases hp
+  | reject rest _ hp =>
     rw [hF.prog] at hp
     rcases head_push_or_fin todo (tailOps cy) with ⟨e, r, h'⟩ | ⟨r, h'⟩ <;> rw [h'] at hp <;> cases hp
   | fsend _ _ hpc => rcases pcne hpc with h | h | h <;> cases h
@@ -1453,6 +1465,7 @@ theorem Z_cstep {s t : CState} {A : List Writer} {cp : List Elem} (hs : Str s)
   | finEmpty _ _ _ _ _ hpc => rcases pcne hpc with h | h | h <;> cases h
   | pull _ hpc => rcases pcne hpc with h | h | h <;> cases h
   | clear _ hpc => rcases pcne hpc with h | h | h <;> cases h
+  | reject _ hpc => rcases pcne hpc with h | h | h <;> cases h
   | send _ _ hpc => rcases pcne hpc with h | h | h <;> cases h
   | recvErr _ _ _ hpc => rcases pcne hpc with h | h | h <;> cases h
   | recvOk _ _ hpc => rcases pcne hpc with h | h | h <;> cases h
@@ -1603,7 +1616,7 @@ theorem D_final {s : CState} (hD : PhaseD c ac cy s) (hprog : s.prog = []) (hcl 
     | zero => rfl
     | succ k' => simp [List.replicate_succ] at hp
   subst hk
-  rcases hcase with ⟨he, hdr, hperm, hle, _⟩ | ⟨he, _, hperm⟩
+  rcases hcase with ⟨he, hdr, hperm, hle, _⟩ | ⟨he, _, hperm, _⟩
   · subst he
     refine ⟨ds ++ sortRun (remaining s.m), D_ys hsd hperm hle, ?_⟩
     rw [houts, ← final_outs ac cy ds (sortRun (remaining s.m)) 0 (by omega) (by omega), hcl]
@@ -1639,6 +1652,7 @@ theorem D_cstep {s t : CState} (hD : PhaseD c ac cy s) (hst : CStep s t) : CInv 
   | finFast _ _ _ h' => rcases progne h' with h | h <;> cases h
   | finDisk _ _ _ h' => rcases progne h' with h | h <;> cases h
   | finEmpty _ _ _ _ _ _ h' => rcases progne h' with h | h <;> cases h
+  | reject _ _ h' => rcases progne h' with h | h <;> cases h
   | send _ _ hpc => cases pcne hpc
   | recvErr _ _ _ hpc => cases pcne hpc
   | recvOk _ _ hpc => cases pcne hpc
@@ -1663,7 +1677,7 @@ theorem D_cstep {s t : CState} (hD : PhaseD c ac cy s) (hst : CStep s t) : CInv 
       have houts' : ∀ r v, (finishOp (pullF s).1 r v).outs.reverse
           = s.outs.reverse ++ [⟨r, v, (pull s.m).1.len, (pull s.m).1.pos⟩] := by
         intro r v; rw [finishOp_outs, hfr.outs, hm]
-      rcases hcase with ⟨he, hdr, hperm, hle, hpos⟩ | ⟨he, hat, hperm⟩
+      rcases hcase with ⟨he, hdr, hperm, hle, hpos⟩ | ⟨he, hat, hperm, _⟩
       · subst he
         by_cases hrem : remaining s.m = []
         · -- io.EOF
@@ -1679,11 +1693,12 @@ theorem D_cstep {s t : CState} (hD : PhaseD c ac cy s) (hst : CStep s t) : CInv 
             · exact hd'.err
             · exact hf'.err
           refine Or.inr (Or.inr ⟨by simp [finishOp, hm, herr'], Or.inr (Or.inr (Or.inl ⟨rfl, hquiet, ?_⟩))⟩)
-          refine ⟨ds, 1, k', ?_, by omega, ?_, hsd, Or.inr ⟨by omega, ?_, ?_⟩⟩
+          refine ⟨ds, 1, k', ?_, by omega, ?_, hsd, Or.inr ⟨by omega, ?_, ?_, ?_⟩⟩
           · rw [hr]; exact hprog' _ _ (by simp) (by simp) (by simp)
           · rw [hr, hv, houts', houts, hlp]; simp
           · show AtEof c ac 1 (finishOp _ _ _).m _; simp only [finishOp, hm]; exact h2
           · rw [hrem] at hperm; simpa using hperm
+          · show ac = true → Fresh c ac 1 (finishOp _ _ _).m; simp only [finishOp, hm]; exact h3
         · -- a value
           obtain ⟨v, h1, h2, hdr', hperm', hmin⟩ := pull_some hdr hrem
           have hr : (pullF s).2.1 = .ok := by rw [hres, h1]
@@ -1712,7 +1727,7 @@ theorem D_cstep {s t : CState} (hD : PhaseD c ac cy s) (hst : CStep s t) : CInv 
             · simp only [List.mem_singleton] at hd; subst hd; exact hmin r hr'
           · simp [finishOp, hm, hpos']
       · -- io.EOF again
-        obtain ⟨h1, h2, _⟩ := step_pull_ateof (Nat.le_refl 1) hat
+        obtain ⟨h1, h2, h3⟩ := step_pull_ateof (Nat.le_refl 1) hat
         have hstep : Morass.step s.m .pull = ((pull s.m).1, ⟨(pull s.m).2.1, (pull s.m).2.2, (pull s.m).1.len, (pull s.m).1.pos⟩) := rfl
         rw [hstep] at h1 h2
         simp only at h1 h2
@@ -1728,10 +1743,11 @@ theorem D_cstep {s t : CState} (hD : PhaseD c ac cy s) (hst : CStep s t) : CInv 
           · exact hd'.err
           · exact hf'.err
         refine Or.inr (Or.inr ⟨by simp [finishOp, hm, herr'], Or.inr (Or.inr (Or.inl ⟨rfl, hquiet, ?_⟩))⟩)
-        refine ⟨ds, e + 1, k', ?_, by omega, ?_, hsd, Or.inr ⟨by omega, ?_, hperm⟩⟩
+        refine ⟨ds, e + 1, k', ?_, by omega, ?_, hsd, Or.inr ⟨by omega, ?_, hperm, ?_⟩⟩
         · rw [hr]; exact hprog' _ _ (by simp) (by simp) (by simp)
         · rw [hr, hv, houts', houts, hlp]; simp [List.replicate_succ']
         · show AtEof c ac 1 (finishOp _ _ _).m _; simp only [finishOp, hm]; exact h2
+        · show ac = true → Fresh c ac 1 (finishOp _ _ _).m; simp only [finishOp, hm]; exact h3
   | clear rest hpc hprog =>
     rw [hp] at hprog
     obtain ⟨rfl, hcl, rfl⟩ := dprog_clear hprog
@@ -1740,7 +1756,7 @@ theorem D_cstep {s t : CState} (hD : PhaseD c ac cy s) (hst : CStep s t) : CInv 
     · refine Or.inl ?_
       rw [hio]; exact Reported_finish _
     · obtain ⟨hl0, hp0, he0⟩ := clear_len_pos s.m
-      refine Or.inr (Or.inr ⟨by simp [finishOp, hm, he0], Or.inr (Or.inr (Or.inr ⟨rfl, ?_, ?_, ?_, ?_⟩))⟩)
+      refine Or.inr (Or.inr ⟨by simp [finishOp, hm, he0], Or.inr (Or.inr (Or.inr ⟨rfl, ?_, ?_, ?_, ?_, ?_⟩))⟩)
       · rw [hok, finishOp_ok_prog, hfr.prog, hp, hcl]; rfl
       · intro w hw; simp only [finishOp, hfr.writers] at hw; exact hD.quiet w hw
       · show (finishOp _ _ _).m.files = []
@@ -1748,7 +1764,7 @@ theorem D_cstep {s t : CState} (hD : PhaseD c ac cy s) (hst : CStep s t) : CInv 
       · have houts' : (finishOp (clearF s).1 (clearF s).2 none).outs.reverse
             = s.outs.reverse ++ [⟨.ok, none, 0, 0⟩] := by
           rw [finishOp_outs, hfr.outs, hm, hok, hl0, hp0]
-        rcases hcase with ⟨he, hdr, hperm, hle, _⟩ | ⟨he, _, hperm⟩
+        rcases hcase with ⟨he, hdr, hperm, hle, _⟩ | ⟨he, _, hperm, _⟩
         · subst he
           refine ⟨ds ++ sortRun (remaining s.m), D_ys hsd hperm hle, ?_⟩
           rw [houts', houts, ← final_outs ac cy ds (sortRun (remaining s.m)) 0 (by omega) (by omega), hcl]
@@ -1756,10 +1772,17 @@ theorem D_cstep {s t : CState} (hD : PhaseD c ac cy s) (hst : CStep s t) : CInv 
         · refine ⟨ds ++ [], by rw [List.append_nil]; exact ⟨hperm, hsd⟩, ?_⟩
           rw [houts', houts, ← final_outs ac cy ds [] e (by omega) (fun _ => rfl), hcl]
           simp
+      · show Fresh c ac 1 (finishOp _ _ _).m
+        simp only [finishOp, hm]
+        rcases hcase with ⟨_, hdr, _⟩ | ⟨_, hat, _⟩
+        · exact clear_draining hdr
+        · rcases hat with ⟨hdr, _⟩ | ⟨_, hfr⟩
+          · exact clear_draining hdr
+          · exact clear_fresh hfr
 
 /-! ### the invariant holds in every reachable state -/
 
-theorem E_cstep {s t : CState} (hE : PhaseEnd ac cy s) (hst : CStep s t) : CInv c ac cy t := by
+theorem E_cstep {s t : CState} (hE : PhaseEnd c ac cy s) (hst : CStep s t) : CInv c ac cy t := by
   have pcne : ∀ {p : CPc}, s.pc = p → p = .idle := fun hp' => by rw [← hp']; exact hE.pc
   have progne : ∀ {op : Op} {rest : List Op}, s.prog = op :: rest → False := by
     intro op rest h'; rw [hE.prog] at h'; cases h'
@@ -1775,6 +1798,7 @@ theorem E_cstep {s t : CState} (hE : PhaseEnd ac cy s) (hst : CStep s t) : CInv 
   | finEmpty _ _ _ _ _ _ h' => exact (progne h').elim
   | pull _ _ h' => exact (progne h').elim
   | clear _ _ h' => exact (progne h').elim
+  | reject _ _ h' => exact (progne h').elim
   | send _ _ hpc => cases pcne hpc
   | recvErr _ _ _ hpc => cases pcne hpc
   | recvOk _ _ hpc => cases pcne hpc
@@ -2002,6 +2026,7 @@ theorem NoFault_cstep {s t : CState} (h : NoFault s) (hst : CStep s t) : NoFault
     obtain ⟨a, b, c'⟩ := clearF_nofault hf
     apply NoFault_finish h0 b c' (clearF_frame s).outs _ _
     rw [a]; simp
+  | reject => exact NoFault_finish h0 hf he rfl _ _ (by simp)
   | send => exact ⟨hf, he, ho⟩
   | recvOk =>
     apply NoFault_finish h0
@@ -2189,6 +2214,7 @@ theorem EofDir_cstep {s t : CState} (h : EofDir s) (hst : CStep s t) : EofDir t 
       (fun h' => by
         have := (clearF_nofault h.1.1).1
         rw [this] at h'; cases h')
+  | reject => exact EofDir_finish h hn rfl rfl id (fun h' => by cases h')
   | send => exact ⟨hn, h.2⟩
   | recvOk => exact EofDir_finish h hn rfl rfl id (fun h' => by cases h')
   | fsend => exact ⟨hn, h.2⟩
@@ -2404,6 +2430,7 @@ theorem DiskInv_cstep {s t : CState} (hs : Str s) (h : DiskInv s) (hst : CStep s
   | finErr _ _ hpc => exact DiskInv_finishOp h0 (by rw [hpc]; simp) _ _
   | finNil _ hpc => exact DiskInv_finishOp h0 (by rw [hpc]; simp) _ _
   | waitErr _ hpc => exact DiskInv_finishOp h0 (by rw [hpc]; simp) _ _
+  | reject _ hpc => exact DiskInv_finishOp h0 (by rw [hpc]; simp) _ _
   | pushFull _ _ _ hpc =>
     exact ⟨hf, hac, hacl, by
       show s.onDisk = s.m.files.length + cnt atReg { s with pc := CPc.pushSend }
